@@ -50,7 +50,7 @@ def run(ctx, rep):
         if c.is_abstract() or c.qualname == KDE:
             continue
         n += 1
-        fit = c.lookup('_fit')
+        fit = c.need('_fit')
         dk = DimKind(ctx, data_params=(fit.params[1],))
         dk.self_kinds.update({'min': 'Pt', 'max': 'Pt'})
         fr = Frame(fit, {}, c)
@@ -116,9 +116,9 @@ def run(ctx, rep):
         for node, f, msg in dk.problems:
             rep.bad('D1.dims', f, node, f'{c.name}: {msg}')
     rep.floor('D1.dims', 'parametric families typed', n, 7)
-    d2(ctx, rep)
-    d3(ctx, rep)
-    d4(ctx, rep)
+    rep.guarded('D2.d2', d2, ctx, rep)
+    rep.guarded('D3.d3', d3, ctx, rep)
+    rep.guarded('D4.d4', d4, ctx, rep)
 
 
 def _objective_order(prog, fit, call):
